@@ -113,9 +113,15 @@ def nontrivial(case):
 def run_case(case, ctx):
     import pyspike
     ctx.set_backend(case["compiled"])
+    sts = ps.trains(case)
+    ps.prime(ctx, case, sts, (pyspike.spike_profile, pyspike.spike_distance))
+    ps.judge_twice(case, ctx, sts, _judge)
+
+
+def _judge(case, ctx, sts):
+    import pyspike
     tol = ps.tol_of(case)
-    st1, st2 = ps.trains(case)
-    ps.prime(ctx, case, (st1, st2), (pyspike.spike_profile, pyspike.spike_distance))
+    st1, st2 = sts
     (a, b), T0, T1 = ps.fr_trains(case)
     m = ps.mrts_exact(case)
     ri = bool(case["ri"])
